@@ -33,7 +33,11 @@ Definition node_x (b : base) (k : kind) (name : str) (url : option str) (p : per
            (dx : str -> list (str * xval)) (lx : str -> list xval) : xval :=
   XO (cls_of k) (JStr name) (JStr (rebase b (url_rel url)))
      (canon_attrs (cls_of k)
-        (match proctype_str k with Some t => [(s "proctype", XV (JStr t))] | None => [] end
+        ((* only ExternalInterface objects get a proctype attribute *)
+         match proctype_str k with
+         | Some t => if xcls_eqb (cls_of k) XInterface then [(s "proctype", XV (JStr t))] else []
+         | None => []
+         end
          ++ map (fun sl => (sl, XD (dx sl))) (dict_slots k)
          ++ map (fun sl => (sl, XL (lx sl))) (list_slots k)
          ++ [(s "permission", XV (JStr (perm_str p)))])).
@@ -81,6 +85,10 @@ Proof. intros ->. reflexivity. Qed.
 
 (* ================================================================= dict2obj of an exported node *)
 
+Definition EC (t : str) : option xcls := entity_class (lower t).
+Lemma EC_kind k : EC (match proctype_str k with Some t => t | None => obj_str k end) = Some (cls_of k).
+Proof. destruct k; reflexivity. Qed.
+
 Lemma import_node_entries b rec k name url p dv lv dx lx :
   (forall sl, In sl (dict_slots k) -> import_pairs rec (dv sl) = Ok (dx sl)) ->
   (forall sl, In sl (list_slots k) -> import_items rec (lv sl) = Ok (lx sl)) ->
@@ -88,10 +96,663 @@ Lemma import_node_entries b rec k name url p dv lv dx lx :
 Proof.
   intros HD HL.
   unfold import_node, node_entries, node_x.
+  change (entity_class (lower ?t)) with (EC t).
   set (U := url_text url).
   assert (EU : after_first_slash U = url_rel url) by reflexivity.
-  assert (TU : truthy (JStr U) = true) by reflexivity.
-  destruct k; cbn [proctype_str dict_slots list_slots obj_str map app assoc_get str_eqb s
-                  list_ascii_of_string Ascii.eqb Bool.eqb andb];
-    rewrite TU, EU; cbn.
-Abort.
+  assert (TU : negb (str_eqb U []) = true) by reflexivity.
+  clearbody U.
+  set (R := rebase b) in *. clearbody R.
+  pose proof (EC_kind k) as HEC.
+  destruct k;
+    cbn -[import_pairs import_items canon_attrs EC] in *; rewrite TU;
+    cbn -[import_pairs import_items canon_attrs EC]; rewrite HEC;
+    cbn -[import_pairs import_items canon_attrs EC];
+    rewrite ?HD, ?HL by tauto; cbn -[canon_attrs]; rewrite ?EU; reflexivity.
+Qed.
+
+(* ================================================================= filtered maps over the kids *)
+
+Definition sel_map {X} (sel : ent -> bool) (f : ent -> X) : list ent -> list X :=
+  fix go (l : list ent) : list X :=
+    match l with
+    | [] => []
+    | c :: r => if sel c then f c :: go r else go r
+    end.
+
+Lemma sel_map_in {X} sel (f : ent -> X) l c : In c l -> sel c = true -> In (f c) (sel_map sel f l).
+Proof.
+  induction l as [|x l IH]; simpl; [tauto|].
+  intros [->|H] S.
+  - rewrite S. now left.
+  - destruct (sel x); [right|]; auto.
+Qed.
+
+Lemma sel_map_in_inv {X} sel (f : ent -> X) l y :
+  In y (sel_map sel f l) -> exists c, In c l /\ sel c = true /\ y = f c.
+Proof.
+  induction l as [|x l IH]; simpl; [tauto|].
+  destruct (sel x) eqn:S.
+  - intros [<-|H]; [exists x; auto|]. destruct (IH H) as (c & A & B & C). exists c; auto.
+  - intros H. destruct (IH H) as (c & A & B & C). exists c; auto.
+Qed.
+
+Definition dict_sel (k' : kind) (c : ent) : bool := kind_eqb (e_kind c) k' && accessible c.
+Definition list_sel (cfg : acfg) (kept : bool) (k : kind) (slot : str) (c : ent) : bool :=
+  str_eqb (slot_of (e_kind c)) slot && listed cfg kept k c.
+
+Lemma export_ent_eq idf cfg pk purl kept id k name p kids :
+  export_ent idf cfg pk purl kept (Ent id k name p kids) =
+  let url := own_url pk purl k (idf id) in
+  JDict (node_entries k name url p
+    (fun slot => flat_map (fun k' => if opt_eqb str_eqb (pub_class k') (Some slot)
+                                     then sel_map (dict_sel k')
+                                            (fun c => (lower (e_name c),
+                                                       export_ent idf cfg (Some k) url (shown (c_display cfg) c) c)) kids
+                                     else []) PUB_KINDS)
+    (fun slot => sel_map (list_sel cfg kept k slot) (export_ent idf cfg (Some k) url kept) kids)).
+Proof. reflexivity. Qed.
+
+Lemma xlate_eq idf cfg b pk purl kept id k name p kids :
+  xlate idf cfg b pk purl kept (Ent id k name p kids) =
+  let url := own_url pk purl k (idf id) in
+  node_x b k name url p
+    (fun slot => flat_map (fun k' => if opt_eqb str_eqb (pub_class k') (Some slot)
+                                     then sel_map (dict_sel k')
+                                            (fun c => (lower (e_name c),
+                                                       xlate idf cfg b (Some k) url (shown (c_display cfg) c) c)) kids
+                                     else []) PUB_KINDS)
+    (fun slot => sel_map (list_sel cfg kept k slot) (xlate idf cfg b (Some k) url kept) kids).
+Proof. reflexivity. Qed.
+
+(* ================================================================= sizes *)
+
+Lemma jsize_pos j : 1 <= jsize j.
+Proof. destruct j; simpl; lia. Qed.
+
+Lemma jsize_in_list x l : In x l -> jsize x < jsize (JList l).
+Proof.
+  simpl. induction l as [|y l IH]; simpl; [tauto|].
+  intros [->|H]; [lia|]. specialize (IH H). lia.
+Qed.
+
+Lemma jsize_in_dict k v d : In (k, v) d -> jsize v < jsize (JDict d).
+Proof.
+  simpl. induction d as [|[k' y] d IH]; simpl; [tauto|].
+  intros [E|H]; [injection E as -> ->; lia|]. specialize (IH H). lia.
+Qed.
+
+Lemma list_slot_entry k name url p dv lv sl :
+  In sl (list_slots k) -> In (sl, JList (lv sl)) (node_entries k name url p dv lv).
+Proof.
+  intros H. unfold node_entries. apply in_or_app. right. apply in_or_app. right.
+  apply in_or_app. right. apply in_or_app. left.
+  apply in_map_iff. exists sl. auto.
+Qed.
+Lemma dict_slot_entry k name url p dv lv sl :
+  In sl (dict_slots k) -> In (sl, JDict (dv sl)) (node_entries k name url p dv lv).
+Proof.
+  intros H. unfold node_entries. apply in_or_app. right. apply in_or_app. right.
+  apply in_or_app. left. apply in_map_iff. exists sl. auto.
+Qed.
+
+(* ================================================================= lists and dicts of imports *)
+
+Lemma import_items_sel rec sel (f : ent -> json) (g : ent -> xval) kids :
+  (forall c, In c kids -> sel c = true -> truthy (f c) = true /\ rec (f c) = Ok (g c)) ->
+  import_items rec (sel_map sel f kids) = Ok (sel_map sel g kids).
+Proof.
+  induction kids as [|c r IH]; intros H; simpl; [reflexivity|].
+  destruct (sel c) eqn:S.
+  - simpl. destruct (H c (or_introl eq_refl) S) as [T E]. rewrite T, E. simpl.
+    rewrite IH; [reflexivity|]. intros c' Hc. apply H. now right.
+  - apply IH. intros c' Hc. apply H. now right.
+Qed.
+
+Lemma import_pairs_sel rec sel (kf : ent -> str) (f : ent -> json) (g : ent -> xval) kids :
+  (forall c, In c kids -> sel c = true -> truthy (f c) = true /\ rec (f c) = Ok (g c)) ->
+  import_pairs rec (sel_map sel (fun c => (kf c, f c)) kids) = Ok (sel_map sel (fun c => (kf c, g c)) kids).
+Proof.
+  induction kids as [|c r IH]; intros H; simpl; [reflexivity|].
+  destruct (sel c) eqn:S.
+  - simpl. destruct (H c (or_introl eq_refl) S) as [T E]. rewrite T, E. simpl.
+    rewrite IH; [reflexivity|]. intros c' Hc. apply H. now right.
+  - apply IH. intros c' Hc. apply H. now right.
+Qed.
+
+Lemma import_pairs_app rec a b xa xb :
+  import_pairs rec a = Ok xa -> import_pairs rec b = Ok xb -> import_pairs rec (a ++ b) = Ok (xa ++ xb).
+Proof.
+  revert xa. induction a as [|[k x] a IH]; intros xa; simpl.
+  - intros [= <-] Hb. exact Hb.
+  - destruct (truthy x).
+    + destruct (rec x) as [v|e]; simpl; [|discriminate].
+      destruct (import_pairs rec a) as [vs|e] eqn:E; simpl; [|discriminate].
+      intros [= <-] Hb. rewrite (IH vs eq_refl Hb). reflexivity.
+    + intros Ha Hb. now apply IH.
+Qed.
+
+Lemma import_pairs_flat {K} rec (F : K -> list (str * json)) (G : K -> list (str * xval)) ks :
+  (forall k, In k ks -> import_pairs rec (F k) = Ok (G k)) ->
+  import_pairs rec (flat_map F ks) = Ok (flat_map G ks).
+Proof.
+  induction ks as [|k ks IH]; intros H; simpl; [reflexivity|].
+  apply import_pairs_app; [apply H; now left|]. apply IH. intros k' Hk. apply H. now right.
+Qed.
+
+Lemma truthy_export idf cfg pk purl kept e : truthy (export_ent idf cfg pk purl kept e) = true.
+Proof. destruct e. reflexivity. Qed.
+
+(* ================================================================= import (export e) *)
+
+Theorem import_export_ent idf cfg b e :
+  forall n pk purl kept,
+    jsize (export_ent idf cfg pk purl kept e) <= n ->
+    import_fuel n b (export_ent idf cfg pk purl kept e) = Ok (xlate idf cfg b pk purl kept e).
+Proof.
+  induction e as [id k name p kids IH] using ent_rect'.
+  intros n pk purl kept Hn.
+  rewrite export_ent_eq in *. rewrite xlate_eq. cbv zeta in *.
+  set (url := own_url pk purl k (idf id)) in *.
+  match goal with
+  | |- context [node_entries k name url p ?dv ?lv] => set (DV := dv) in *; set (LV := lv) in *
+  end.
+  destruct n as [|n]; [pose proof (jsize_pos (JDict (node_entries k name url p DV LV))); lia|].
+  cbn [import_fuel].
+  rewrite Forall_forall in IH.
+  apply import_node_entries.
+  - intros sl Hsl.
+    pose proof (jsize_in_dict _ _ _ (dict_slot_entry k name url p DV LV sl Hsl)) as L2.
+    unfold DV at 1. unfold DV at 1 in L2.
+    apply import_pairs_flat. intros k' Hk'.
+    destruct (opt_eqb str_eqb (pub_class k') (Some sl)) eqn:Ek; [|reflexivity].
+    apply import_pairs_sel. intros c Hc Sc. split; [apply truthy_export|].
+    apply IH; [exact Hc|].
+    match type of L2 with
+    | jsize (JDict ?d) < _ =>
+      assert (L : jsize (export_ent idf cfg (Some k) url (shown (c_display cfg) c) c) < jsize (JDict d))
+    end.
+    { apply (jsize_in_dict (lower (e_name c))). apply in_flat_map. exists k'. split.
+      - exact Hk'.
+      - rewrite Ek. apply (sel_map_in (dict_sel k') (fun c0 => (lower (e_name c0), _)) kids c Hc Sc). }
+    lia.
+  - intros sl Hsl.
+    pose proof (jsize_in_dict _ _ _ (list_slot_entry k name url p DV LV sl Hsl)) as L2.
+    unfold LV at 1. unfold LV at 1 in L2.
+    apply import_items_sel. intros c Hc Sc. split; [apply truthy_export|].
+    apply IH; [exact Hc|].
+    pose proof (jsize_in_list _ _ (sel_map_in (list_sel cfg kept k sl) (export_ent idf cfg (Some k) url kept) kids c Hc Sc)) as L.
+    lia.
+Qed.
+
+(* ================================================================= loading what A exported *)
+
+Definition xmods (A : aproject) (b : base) : list xval :=
+  map (xlate (ident_of A) (a_cfg A) b None None true) (a_modules A).
+
+Lemma import_all_map idf cfg b mods :
+  import_all b (map (export_ent idf cfg None None true) mods)
+  = Ok (map (xlate idf cfg b None None true) mods).
+Proof.
+  induction mods as [|m r IH]; simpl; [reflexivity|].
+  unfold import_val. rewrite import_export_ent by lia. simpl. rewrite IH. reflexivity.
+Qed.
+
+Theorem load_json_export A b v : load_json b (export A v) = Ok (xmods A b).
+Proof. unfold load_json, export, xmods. cbn -[import_all]. apply import_all_map. Qed.
+
+(* the five ways B can be told where A's documentation is, all with a readable description *)
+Theorem load_export_local A d v : load (SLocal d (LJson (export A v))) = OLoaded (xmods A (BLocal d)).
+Proof. unfold load. rewrite load_json_export. reflexivity. Qed.
+Theorem load_export_remote A u v :
+  load (SRemote u (RJson (export A v))) = OLoaded (xmods A (BRemote (with_slash u))).
+Proof. unfold load. rewrite load_json_export. reflexivity. Qed.
+
+(* ================================================================= attributes of an imported module *)
+
+Lemma module_pub_attr b name url p dx lx w :
+  In w PUB_DICTS ->
+  assoc_get w (x_attrs (node_x b KModule name url p dx lx)) = Some (XD (dx w)).
+Proof.
+  intros H. unfold PUB_DICTS in H. simpl in H.
+  destruct H as [<-|[<-|[<-|[<-|[]]]]]; reflexivity.
+Qed.
+
+Lemma module_pub_all b name url p dx lx :
+  forallb (fun w => match assoc_get w (x_attrs (node_x b KModule name url p dx lx)) with
+                    | Some (XD _) => true | _ => false end) PUB_DICTS = true.
+Proof. reflexivity. Qed.
+
+(* ================================================================= lower *)
+
+Lemma lower_ch_idem c : lower_ch (lower_ch c) = lower_ch c.
+Proof. destruct c as [[] [] [] [] [] [] [] []]; reflexivity. Qed.
+Lemma lower_idem x : lower (lower x) = lower x.
+Proof. unfold lower. rewrite map_map. apply map_ext. intros c. apply lower_ch_idem. Qed.
+
+(* ================================================================= the last match in a dict with distinct keys *)
+
+Definition last_match (n : str) (l : list (str * xval)) : option xval :=
+  fold_left (fun acc kv => if str_eqb (lower (fst kv)) (lower n) then Some (snd kv) else acc) l None.
+
+Lemma fold_last_none n (l : list (str * xval)) (acc : option xval) :
+  (forall kv, In kv l -> str_eqb (lower (fst kv)) (lower n) = false) ->
+  fold_left (fun acc kv => if str_eqb (lower (fst kv)) (lower n) then Some (snd kv) else acc) l acc = acc.
+Proof.
+  revert acc. induction l as [|kv l IH]; intros acc H; simpl; [reflexivity|].
+  rewrite (H kv (or_introl eq_refl)). apply IH. intros kv' Hk. apply H. now right.
+Qed.
+
+Lemma last_match_unique n l k v :
+  NoDup (map (fun kv => lower (fst kv)) l) -> In (k, v) l -> lower k = lower n ->
+  last_match n l = Some v.
+Proof.
+  unfold last_match. generalize (@None xval) as acc.
+  induction l as [|[k' v'] l IH]; intros acc ND Hin E; simpl in *; [tauto|].
+  inversion ND as [|? ? Hn ND']; subst.
+  destruct Hin as [H|H].
+  - injection H as -> ->. rewrite E, str_eqb_refl.
+    apply fold_last_none. intros [k2 v2] H2. simpl.
+    apply str_eqb_neq. intros E2. apply Hn. rewrite E, <- E2.
+    apply (in_map (fun kv => lower (fst kv)) l (k2, v2) H2).
+  - apply IH; auto.
+Qed.
+
+(* ================================================================= what a USE of B gets *)
+
+Lemma sel_map_filter {X} sel (f : ent -> X) l : sel_map sel f l = map f (filter sel l).
+Proof. induction l as [|c r IH]; simpl; [reflexivity|]. destruct (sel c); simpl; now rewrite IH. Qed.
+
+(* the accessible entities of module m that a USE can import from class dict w *)
+Definition class_members (m : ent) (w : str) : list ent :=
+  flat_map (fun k' => if opt_eqb str_eqb (pub_class k') (Some w) then filter (dict_sel k') (e_kids m) else [])
+           PUB_KINDS.
+
+(* Fortran: the accessible names of one class in a module are distinct (case-insensitively) *)
+Definition names_distinct (m : ent) : Prop :=
+  forall w, In w PUB_DICTS -> NoDup (map (fun c => lower (e_name c)) (class_members m w)).
+
+Lemma dict_as_map {X} (f : ent -> X) kids w :
+  flat_map (fun k' => if opt_eqb str_eqb (pub_class k') (Some w) then sel_map (dict_sel k') f kids else []) PUB_KINDS
+  = map f (flat_map (fun k' => if opt_eqb str_eqb (pub_class k') (Some w) then filter (dict_sel k') kids else [])
+                    PUB_KINDS).
+Proof.
+  induction PUB_KINDS as [|k' ks IH]; simpl; [reflexivity|].
+  rewrite map_app, IH. f_equal.
+  destruct (opt_eqb str_eqb (pub_class k') (Some w)); [apply sel_map_filter|reflexivity].
+Qed.
+
+Lemma pub_class_in k w : pub_class k = Some w -> In w PUB_DICTS /\ In k PUB_KINDS.
+Proof. destruct k; simpl; intros [= <-]; split; auto 10. Qed.
+
+Lemma opt_eqb_refl w : opt_eqb str_eqb (Some w) (Some w) = true.
+Proof. simpl. apply str_eqb_refl. Qed.
+
+Lemma kind_eqb_refl k : kind_eqb k k = true.
+Proof. destruct k; reflexivity. Qed.
+
+Lemma member_in m e w :
+  In e (e_kids m) -> accessible e = true -> pub_class (e_kind e) = Some w -> In e (class_members m w).
+Proof.
+  intros Hin Ha Hp. unfold class_members. apply in_flat_map. exists (e_kind e). split.
+  - now apply (pub_class_in _ w).
+  - rewrite Hp, opt_eqb_refl. apply filter_In. split; [assumption|].
+    unfold dict_sel. now rewrite kind_eqb_refl, Ha.
+Qed.
+
+Lemma x_url_xlate idf cfg b pk purl kept e :
+  x_url (xlate idf cfg b pk purl kept e)
+  = JStr (rebase b (url_rel (own_url pk purl (e_kind e) (idf (e_id e))))).
+Proof. destruct e. reflexivity. Qed.
+Lemma x_name_xlate idf cfg b pk purl kept e : x_name (xlate idf cfg b pk purl kept e) = JStr (e_name e).
+Proof. destruct e. reflexivity. Qed.
+
+Theorem used_lookup_roundtrip idf cfg b id name p kids e w :
+  let m := Ent id KModule name p kids in
+  names_distinct m ->
+  In e kids -> accessible e = true -> pub_class (e_kind e) = Some w ->
+  used_lookup (xlate idf cfg b None None true m) w (e_name e)
+  = Ok (Some (xlate idf cfg b (Some KModule) (own_url None None KModule (idf id))
+                    (shown (c_display cfg) e) e)).
+Proof.
+  intros m ND Hin Ha Hp.
+  destruct (pub_class_in _ _ Hp) as [Hw _].
+  unfold used_lookup, m. rewrite xlate_eq. cbv zeta.
+  rewrite module_pub_all, (module_pub_attr _ _ _ _ _ _ w Hw).
+  f_equal. rewrite dict_as_map.
+  apply (last_match_unique (e_name e) _ (lower (e_name e))).
+  - rewrite map_map. simpl.
+    rewrite (map_ext _ (fun c => lower (e_name c))) by (intros c; apply lower_idem).
+    apply (ND w Hw).
+  - apply (in_map (fun c => (lower (e_name c), xlate idf cfg b (Some KModule)
+        (own_url None None KModule (idf id)) (shown (c_display cfg) c) c)) _ e).
+    apply (member_in m); assumption.
+  - apply lower_idem.
+Qed.
+
+(* ================================================================= re-basing A's relative URLs *)
+
+(* one path segment: no '/', not empty, not "." *)
+Definition seg_ok (x : str) : bool := no_slash x && negb (str_eqb x []) && negb (str_eqb x dot).
+
+Lemma split_on_noslash x : forall cur, no_slash x = true -> split_on slash x cur = [rev cur ++ x].
+Proof.
+  induction x as [|c x IH]; intros cur H; simpl.
+  - now rewrite app_nil_r.
+  - simpl in H. apply andb_true_iff in H as [Hc Hx].
+    destruct (ch_eqb c slash); [discriminate|].
+    rewrite IH by assumption. simpl. now rewrite <- app_assoc.
+Qed.
+
+Lemma split_on_app a b : forall cur, no_slash a = true ->
+  split_on slash (a ++ slash :: b) cur = (rev cur ++ a) :: split_on slash b [].
+Proof.
+  induction a as [|c a IH]; intros cur H; simpl.
+  - unfold ch_eqb, slash. simpl. now rewrite app_nil_r.
+  - simpl in H. apply andb_true_iff in H as [Hc Ha].
+    destruct (ch_eqb c slash); [discriminate|].
+    rewrite IH by assumption. simpl. now rewrite <- app_assoc.
+Qed.
+
+Lemma seg_ok_parts x : seg_ok x = true ->
+  no_slash x = true /\ str_eqb x [] = false /\ str_eqb x dot = false.
+Proof.
+  unfold seg_ok. intros H. apply andb_true_iff in H as [H H3]. apply andb_true_iff in H as [H1 H2].
+  apply negb_true_iff in H2, H3. auto.
+Qed.
+
+Lemma seg_not_slash_start d r : seg_ok d = true -> starts_with slash_s (d ++ r) = false.
+Proof.
+  intros H. destruct (seg_ok_parts _ H) as (N & E & _).
+  destruct d as [|c d]; [discriminate|]. simpl in N. apply andb_true_iff in N as [Nc _].
+  unfold slash_s. change (s "/") with ["/"%char]. cbn [app starts_with].
+  unfold ch_eqb, slash in Nc. rewrite Ascii.eqb_sym.
+  destruct (Ascii.eqb c "/"); [discriminate|reflexivity].
+Qed.
+
+Theorem path_join_two base d f :
+  seg_ok d = true -> seg_ok f = true ->
+  path_join base (d ++ s "/" ++ f) = base ++ s "/" ++ d ++ s "/" ++ f.
+Proof.
+  intros Hd Hf. unfold path_join.
+  rewrite seg_not_slash_start by assumption.
+  destruct (seg_ok_parts _ Hd) as (Nd & Ed & Dd). destruct (seg_ok_parts _ Hf) as (Nf & Ef & Df).
+  unfold path_comps, split_path.
+  change (d ++ s "/" ++ f) with (d ++ slash :: f).
+  rewrite split_on_app by assumption. rewrite split_on_noslash by assumption. simpl.
+  rewrite Ed, Dd, Ef, Df. simpl. reflexivity.
+Qed.
+
+Lemma dir_part_slash u : dir_part (u ++ s "/") = u ++ s "/".
+Proof. unfold dir_part. rewrite rev_app_distr. simpl. rewrite rev_involutive. reflexivity. Qed.
+
+Theorem url_join_two u d r :
+  has_path (u ++ s "/") = true -> seg_ok d = true ->
+  url_join (u ++ s "/") (d ++ r) = (u ++ s "/") ++ d ++ r.
+Proof.
+  intros Hp Hd. unfold url_join. rewrite seg_not_slash_start by assumption.
+  rewrite Hp, dir_part_slash. reflexivity.
+Qed.
+
+(* ---- the shape of A's URLs ---- *)
+
+Lemma quote_ch_noslash c : ch_eqb c slash = false -> no_slash (quote_ch c) = true.
+Proof. destruct c as [[] [] [] [] [] [] [] []]; intros H; try reflexivity; discriminate H. Qed.
+
+Lemma no_slash_app a b : no_slash (a ++ b) = no_slash a && no_slash b.
+Proof. unfold no_slash. apply forallb_app. Qed.
+
+Lemma quote_noslash x : no_slash x = true -> no_slash (quote x) = true.
+Proof.
+  induction x as [|c x IH]; simpl; [reflexivity|].
+  intros H. apply andb_true_iff in H as [Hc Hx].
+  unfold quote. simpl. fold (quote x). rewrite no_slash_app, IH by assumption.
+  rewrite quote_ch_noslash; [reflexivity|]. now apply negb_true_iff.
+Qed.
+
+Lemma strip_frag_noslash x : no_slash x = true -> no_slash (strip_frag x) = true.
+Proof.
+  induction x as [|c x IH]; simpl; [reflexivity|]. intros H. apply andb_true_iff in H as [Hc Hx].
+  destruct (ch_eqb c "#"); [reflexivity|]. simpl. now rewrite Hc, IH.
+Qed.
+
+Lemma str_eqb_len a b : length a <> length b -> str_eqb a b = false.
+Proof. intros H. apply str_eqb_neq. intros ->. now apply H. Qed.
+
+Lemma seg_ok_long x : no_slash x = true -> 2 <= length x -> seg_ok x = true.
+Proof.
+  intros N L. unfold seg_ok. rewrite N. simpl.
+  rewrite !str_eqb_len; [reflexivity| |]; simpl; lia.
+Qed.
+
+Lemma seg_ok_page idn r :
+  no_slash idn = true -> no_slash r = true -> seg_ok (idn ++ s ".html" ++ r) = true.
+Proof.
+  intros N R. apply seg_ok_long.
+  - rewrite !no_slash_app, N, R. reflexivity.
+  - rewrite !app_length. simpl. lia.
+Qed.
+
+Definition page_dir (x : str) : Prop :=
+  x = s "module" \/ x = s "proc" \/ x = s "interface" \/ x = s "type".
+
+Lemma page_dir_ok d : page_dir d -> seg_ok d = true /\ strip_frag d = d.
+Proof. intros [E|[E|[E|E]]]; subst d; split; reflexivity. Qed.
+
+Lemma dir_of_page pk k d : dir_of pk k = Some d -> page_dir d.
+Proof.
+  unfold page_dir. destruct k; destruct pk as [[]|]; simpl; intros [= <-]; auto.
+Qed.
+
+Lemma strip_frag_app_nohash a b : strip_frag a = a -> strip_frag (a ++ b) = a ++ strip_frag b.
+Proof.
+  induction a as [|c a IH]; simpl; [reflexivity|].
+  destruct (ch_eqb c "#"); [discriminate|]. intros [= E]. now rewrite IH.
+Qed.
+
+Lemma obj_noslash k : no_slash (obj_str k) = true.
+Proof. destruct k; reflexivity. Qed.
+
+(* every URL A gives an entity of a module (depth 1) is  <page dir>/<one segment> *)
+Lemma kid_url_shape idf m e u :
+  e_kind m = KModule ->
+  no_slash (idf (e_id m)) = true -> no_slash (idf (e_id e)) = true ->
+  kid_url idf m e = Some u ->
+  exists d f, u = d ++ s "/" ++ f /\ seg_ok d = true /\ seg_ok f = true /\ page_dir d.
+Proof.
+  intros Hm Nm Ne. unfold kid_url. rewrite Hm.
+  unfold own_url at 1.
+  destruct (dir_of (Some KModule) (e_kind e)) as [d|] eqn:Ed.
+  - intros [= <-]. exists d, (idf (e_id e) ++ s ".html"). pose proof (dir_of_page _ _ _ Ed) as P.
+    repeat split; auto.
+    + now apply page_dir_ok.
+    + rewrite <- (app_nil_r (s ".html")). now apply seg_ok_page.
+  - destruct (anchored (e_kind e)); [|discriminate].
+    simpl. intros [= <-].
+    exists (s "module"), (strip_frag (idf (e_id m) ++ s ".html") ++ s "#" ++ obj_str (e_kind e) ++ s "-" ++ quote (idf (e_id e))).
+    split; [|split; [reflexivity|split; [|left; reflexivity]]].
+    + reflexivity.
+    + apply seg_ok_long.
+      * rewrite !no_slash_app, strip_frag_noslash, obj_noslash, quote_noslash; auto.
+        rewrite no_slash_app, Nm. reflexivity.
+      * rewrite !app_length. simpl. lia.
+Qed.
+
+(* the base B was given: a directory, or a URL with a path that ends in "/" *)
+Definition base_ok (b : base) : Prop :=
+  match b with
+  | BLocal _ => True
+  | BRemote u => exists u0, u = u0 ++ s "/" /\ has_path u = true
+  end.
+
+Theorem rebase_kid_url idf b m e u :
+  base_ok b -> e_kind m = KModule ->
+  no_slash (idf (e_id m)) = true -> no_slash (idf (e_id e)) = true ->
+  kid_url idf m e = Some u ->
+  rebase b u = spec_join b u.
+Proof.
+  intros Hb Hm Nm Ne Hu.
+  destruct (kid_url_shape _ _ _ _ Hm Nm Ne Hu) as (d & f & -> & Sd & Sf & _).
+  destruct b as [dir|url]; simpl.
+  - now apply path_join_two.
+  - destruct Hb as (u0 & -> & Hp). now apply url_join_two.
+Qed.
+
+Theorem rebase_module_url idf b m u :
+  base_ok b -> e_kind m = KModule -> no_slash (idf (e_id m)) = true ->
+  module_url idf m = Some u -> rebase b u = spec_join b u.
+Proof.
+  intros Hb Hm Nm. unfold module_url. rewrite Hm.
+  change (own_url None None KModule (idf (e_id m)))
+    with (Some (s "module" ++ s "/" ++ idf (e_id m) ++ s ".html")).
+  intros [= <-].
+  assert (Sf : seg_ok (idf (e_id m) ++ s ".html") = true).
+  { rewrite <- (app_nil_r (s ".html")). now apply seg_ok_page. }
+  destruct b as [dir|url]; unfold rebase, spec_join.
+  - exact (path_join_two dir (s "module") (idf (e_id m) ++ s ".html") eq_refl Sf).
+  - destruct Hb as (u0 & -> & Hp).
+    exact (url_join_two u0 (s "module") (s "/" ++ idf (e_id m) ++ s ".html") Hp eq_refl).
+Qed.
+
+(* ================================================================= the project lists of B *)
+
+Definition objs_pairs : list (str * xval) -> list xval :=
+  fix go (l : list (str * xval)) : list xval :=
+    match l with [] => [] | (_, a) :: r => objs_of a ++ go r end.
+Definition objs_list : list xval -> list xval :=
+  fix go (l : list xval) : list xval :=
+    match l with [] => [] | a :: r => objs_of a ++ go r end.
+
+Lemma objs_of_XO c n u attrs : objs_of (XO c n u attrs) = XO c n u attrs :: objs_pairs attrs.
+Proof. reflexivity. Qed.
+Lemma objs_of_XL l : objs_of (XL l) = objs_list l.
+Proof. reflexivity. Qed.
+Lemma objs_of_XD l : objs_of (XD l) = objs_pairs l.
+Proof. reflexivity. Qed.
+
+Lemma in_objs_pairs o l : In o (objs_pairs l) -> exists k a, In (k, a) l /\ In o (objs_of a).
+Proof.
+  induction l as [|[k a] l IH]; simpl; [tauto|].
+  intros H. apply in_app_or in H as [H|H].
+  - exists k, a. auto.
+  - destruct (IH H) as (k' & a' & A & B). exists k', a'. auto.
+Qed.
+Lemma in_objs_list o l : In o (objs_list l) -> exists a, In a l /\ In o (objs_of a).
+Proof.
+  induction l as [|a l IH]; simpl; [tauto|].
+  intros H. apply in_app_or in H as [H|H].
+  - exists a. auto.
+  - destruct (IH H) as (a' & A & B). exists a'. auto.
+Qed.
+
+Lemma assoc_get_in {V} k (l : list (str * V)) v : assoc_get k l = Some v -> In (k, v) l.
+Proof.
+  induction l as [|[k' v'] l IH]; simpl; [discriminate|].
+  destruct (str_eqb k k') eqn:E.
+  - intros [= ->]. apply str_eqb_eq in E. subst. now left.
+  - intros H. right. auto.
+Qed.
+
+Lemma in_canon_attrs c set k v :
+  In (k, v) (canon_attrs c set) -> In (k, v) set \/ In (k, v) (defaults c).
+Proof.
+  unfold canon_attrs. intros H. apply in_flat_map in H as (key & _ & H).
+  destruct (assoc_get key set) as [v1|] eqn:E1.
+  - destruct H as [[= <- <-]|[]]. left. now apply assoc_get_in.
+  - destruct (assoc_get key (defaults c)) as [v2|] eqn:E2; [|destruct H].
+    destruct H as [[= <- <-]|[]]. right. now apply assoc_get_in.
+Qed.
+
+Lemma defaults_no_objs c k v o : In (k, v) (defaults c) -> In o (objs_of v) -> False.
+Proof.
+  destruct c; simpl; intros H; repeat (destruct H as [[= <- <-]|H]; [simpl; tauto|]); destruct H.
+Qed.
+
+(* no module inside a module (Fortran has none) *)
+Fixpoint no_module_below (e : ent) : bool :=
+  match e with
+  | Ent _ _ _ _ kids =>
+    (fix go (l : list ent) : bool :=
+       match l with
+       | [] => true
+       | c :: r => negb (kind_eqb (e_kind c) KModule) && no_module_below c && go r
+       end) kids
+  end.
+
+Lemma no_module_below_kids id k name p kids c :
+  no_module_below (Ent id k name p kids) = true -> In c kids ->
+  e_kind c <> KModule /\ no_module_below c = true.
+Proof.
+  simpl. induction kids as [|x r IH]; [intros _ []|].
+  intros H [->|Hc].
+  - apply andb_true_iff in H as [H _]. apply andb_true_iff in H as [H1 H2]. split; [|exact H2].
+    intros E. rewrite E in H1. discriminate.
+  - apply andb_true_iff in H as [_ H]. now apply IH.
+Qed.
+
+Lemma cls_of_module k : cls_of k = XModule -> k = KModule.
+Proof. destruct k; simpl; intros H; try discriminate; reflexivity. Qed.
+
+Definition not_module_obj (o : xval) : Prop := x_cls o <> Some XModule.
+
+Lemma objs_of_xlate_head idf cfg b pk purl kept e :
+  exists rest, objs_of (xlate idf cfg b pk purl kept e) = xlate idf cfg b pk purl kept e :: rest
+               /\ (no_module_below e = true -> Forall not_module_obj rest)
+               /\ x_cls (xlate idf cfg b pk purl kept e) = Some (cls_of (e_kind e)).
+Proof.
+  revert pk purl kept. induction e as [id k name p kids IH] using ent_rect'. intros pk purl kept.
+  rewrite xlate_eq. cbv zeta. set (url := own_url pk purl k (idf id)).
+  match goal with
+  | |- context [node_x b k name url p ?dx ?lx] => set (DX := dx) in *; set (LX := lx) in *
+  end.
+  unfold node_x. rewrite objs_of_XO. eexists. split; [reflexivity|]. split; [|reflexivity].
+  intros NM. apply Forall_forall. intros o Ho.
+  apply in_objs_pairs in Ho as (key & a & Hka & Ho).
+  apply in_canon_attrs in Hka as [Hka|Hka]; [|exfalso; eapply defaults_no_objs; eauto].
+  rewrite Forall_forall in IH.
+  assert (KID : forall c kept', In c kids -> In o (objs_of (xlate idf cfg b (Some k) url kept' c)) -> not_module_obj o).
+  { intros c kept' Hc Hoc. destruct (no_module_below_kids _ _ _ _ _ c NM Hc) as [Kc NMc].
+    destruct (IH c Hc (Some k) url kept') as (rest & E & F & C). rewrite E in Hoc.
+    destruct Hoc as [<-|Hoc].
+    - unfold not_module_obj. rewrite C. intros [= X]. now apply cls_of_module in X.
+    - specialize (F NMc). rewrite Forall_forall in F. now apply F. }
+  apply in_app_or in Hka as [Hka|Hka].
+  { destruct (proctype_str k); [|destruct Hka]. destruct (xcls_eqb (cls_of k) XInterface); [|destruct Hka].
+    destruct Hka as [[= <- <-]|[]]. destruct Ho. }
+  apply in_app_or in Hka as [Hka|Hka].
+  { apply in_map_iff in Hka as (sl & [= <- <-] & _). rewrite objs_of_XD in Ho.
+    apply in_objs_pairs in Ho as (k2 & a2 & Hin & Ho). unfold DX in Hin.
+    apply in_flat_map in Hin as (k' & _ & Hin).
+    destruct (opt_eqb str_eqb (pub_class k') (Some sl)); [|destruct Hin].
+    apply sel_map_in_inv in Hin as (c & Hc & _ & [= -> ->]). eapply KID; eauto. }
+  apply in_app_or in Hka as [Hka|Hka].
+  { apply in_map_iff in Hka as (sl & [= <- <-] & _). rewrite objs_of_XL in Ho.
+    apply in_objs_list in Ho as (a2 & Hin & Ho). unfold LX in Hin.
+    apply sel_map_in_inv in Hin as (c & Hc & _ & ->). eapply KID; eauto. }
+  destruct Hka as [[= <- <-]|[]]. destruct Ho.
+Qed.
+
+Definition is_module_obj (o : xval) : bool :=
+  match x_cls o with Some c => plist_eqb (project_list c) PLModules | None => false end.
+
+Lemma not_module_filter rest :
+  Forall not_module_obj rest -> filter is_module_obj rest = [].
+Proof.
+  induction 1 as [|o r H _ IH]; simpl; [reflexivity|]. rewrite IH.
+  unfold is_module_obj, not_module_obj in *. destruct (x_cls o) as [[]|]; simpl; try reflexivity.
+  now contradiction H.
+Qed.
+
+(* the ext-module list of B is exactly the list of A's modules *)
+Theorem ext_modules_are_modules A b :
+  Forall (fun m => e_kind m = KModule /\ no_module_below m = true) (a_modules A) ->
+  ext_list (xmods A b) PLModules = xmods A b.
+Proof.
+  unfold ext_list, xmods. fold is_module_obj.
+  induction (a_modules A) as [|m r IH]; intros W; simpl; [reflexivity|].
+  inversion W as [|? ? [Km NM] W']; subst.
+  destruct (objs_of_xlate_head (ident_of A) (a_cfg A) b None None true m) as (rest & E & F & C).
+  rewrite E. simpl. rewrite filter_app.
+  change (filter _ (flat_map objs_of ?l)) with (filter is_module_obj (flat_map objs_of l)).
+  rewrite (IH W'), (not_module_filter _ (F NM)).
+  unfold is_module_obj at 1. rewrite C, Km. reflexivity.
+Qed.
